@@ -78,6 +78,49 @@ theorem strictSorted_index_unique (l : List Int) (hs : strictSorted l = true) (m
   · exact h
   · have := strictSorted_getElem?_lt l hs n m a a h hb ha; omega
 
+/-! ## duplicate-free lists (any order) -/
+
+theorem noDup_cons (x : Int) (l : List Int) :
+    noDup (x :: l) = true ↔ x ∉ l ∧ noDup l = true := by
+  simp [noDup]
+
+/-- A sorted unique list (what `np.unique` returns) is in particular duplicate free. -/
+theorem noDup_of_strictSorted (l : List Int) (hs : strictSorted l = true) : noDup l = true := by
+  induction l with
+  | nil => rfl
+  | cons x xs ih =>
+    rw [strictSorted_cons] at hs
+    rw [noDup_cons]
+    refine ⟨fun hm => ?_, ih hs.2⟩
+    have := hs.1 x hm
+    omega
+
+theorem noDup_index_unique (l : List Int) (hs : noDup l = true) (m n : Nat) (a : Int)
+    (ha : l[m]? = some a) (hb : l[n]? = some a) : m = n := by
+  induction l generalizing m n with
+  | nil => simp at ha
+  | cons x xs ih =>
+    rw [noDup_cons] at hs
+    cases m with
+    | zero =>
+      cases n with
+      | zero => rfl
+      | succ n =>
+        simp only [List.getElem?_cons_zero, Option.some.injEq] at ha
+        simp only [List.getElem?_cons_succ] at hb
+        subst ha
+        exact absurd (List.mem_of_getElem? hb) hs.1
+    | succ m =>
+      cases n with
+      | zero =>
+        simp only [List.getElem?_cons_zero, Option.some.injEq] at hb
+        simp only [List.getElem?_cons_succ] at ha
+        subst hb
+        exact absurd (List.mem_of_getElem? ha) hs.1
+      | succ n =>
+        simp only [List.getElem?_cons_succ] at ha hb
+        rw [ih hs.2 m n ha hb]
+
 /-- Two strictly sorted lists with the same elements are equal. -/
 theorem strictSorted_ext (a b : List Int) (ha : strictSorted a = true) (hb : strictSorted b = true)
     (h : ∀ x, x ∈ a ↔ x ∈ b) : a = b := by
@@ -167,11 +210,11 @@ theorem catRoiContains_eq_mem (cats : List Int) (hs : strictSorted cats = true) 
     have := catRoiContains_aux c cs hs v
     simpa [catRoiContains] using this
 
-/-! ## slices of a sorted unique list -/
+/-! ## slices of a category list (any order) -/
 
-theorem mem_pySlice (cats : List Int) (hs : strictSorted cats = true) (l : Int) (hl : l ∈ cats)
-    (a b : Nat) : l ∈ pySlice cats a b ↔ a ≤ indexOf l cats ∧ indexOf l cats < b := by
-  have hi := getElem?_indexOf l cats hl
+/-- `l ∈ cats[a:b]` iff `l` sits at some position `a ≤ i < b` of the list — any list. -/
+theorem mem_pySlice_iff (cats : List Int) (l : Int) (a b : Nat) :
+    l ∈ pySlice cats a b ↔ ∃ i, a ≤ i ∧ i < b ∧ cats[i]? = some l := by
   unfold pySlice
   rw [List.mem_iff_getElem?]
   constructor
@@ -180,20 +223,42 @@ theorem mem_pySlice (cats : List Int) (hs : strictSorted cats = true) (l : Int) 
     split at hj
     · rename_i hlt
       rw [List.getElem?_drop] at hj
-      have := strictSorted_index_unique cats hs _ _ l hj hi
-      omega
+      exact ⟨a + j, by omega, by omega, hj⟩
     · simp at hj
-  · rintro ⟨h1, h2⟩
-    refine ⟨indexOf l cats - a, ?_⟩
+  · rintro ⟨i, h1, h2, h3⟩
+    refine ⟨i - a, ?_⟩
     rw [List.getElem?_take]
-    have : indexOf l cats - a < b - a := by omega
+    have : i - a < b - a := by omega
     simp only [this, if_true]
     rw [List.getElem?_drop]
-    have : a + (indexOf l cats - a) = indexOf l cats := by omega
-    rw [this]; exact hi
+    have : a + (i - a) = i := by omega
+    rw [this]; exact h3
+
+/-- In a duplicate-free list (any order) the slice is described by the label's one position. -/
+theorem mem_pySlice (cats : List Int) (hs : noDup cats = true) (l : Int) (hl : l ∈ cats)
+    (a b : Nat) : l ∈ pySlice cats a b ↔ a ≤ indexOf l cats ∧ indexOf l cats < b := by
+  have hi := getElem?_indexOf l cats hl
+  rw [mem_pySlice_iff]
+  constructor
+  · rintro ⟨j, h1, h2, hj⟩
+    have := noDup_index_unique cats hs _ _ l hj hi
+    omega
+  · rintro ⟨h1, h2⟩
+    exact ⟨_, h1, h2, hi⟩
+
+theorem mem_positionsOf (l : Int) (cs : List Int) (i : Nat) :
+    i ∈ positionsOf l cs ↔ cs[i]? = some l := by
+  unfold positionsOf
+  simp only [List.mem_filter, List.mem_range, beq_iff_eq]
+  constructor
+  · exact fun h => h.2
+  · intro h
+    refine ⟨?_, h⟩
+    have := List.getElem?_eq_some_iff.mp h
+    exact this.1
 
 /-- `CategoricalROI.from_range(...).contains(label)` in terms of the label's position. -/
-theorem fromRange_contains (cats : List Int) (hs : strictSorted cats = true) (lo hi : Rat) (l : Int)
+theorem fromRange_contains (cats : List Int) (hs : noDup cats = true) (lo hi : Rat) (l : Int)
     (hl : l ∈ cats) :
     catRoiContains (fromRange cats lo hi) l =
       (decide (lo ≤ ((indexOf l cats : Nat) : Int)) && decide ((((indexOf l cats : Nat) : Int) : Rat) < hi)) := by
@@ -220,14 +285,14 @@ theorem dictGet_none_of_not_mem {β : Type} (d : List (Int × β)) (k : Int)
     simp [dictGet, h2, h1]
 
 /-- Looking a label of a duplicate-free category list up in `[(label, f code) | f code ≠ none]`. -/
-theorem dictGet_zipIdx_filterMap {β : Type} (cats : List Int) (hs : strictSorted cats = true)
+theorem dictGet_zipIdx_filterMap {β : Type} (cats : List Int) (hs : noDup cats = true)
     (f : Nat → Option β) (l : Int) (hl : l ∈ cats) (n : Nat) :
     dictGet ((cats.zipIdx n).filterMap fun lc => (f lc.2).map fun v => (lc.1, v)) l =
       f (n + indexOf l cats) := by
   induction cats generalizing n with
   | nil => simp at hl
   | cons c cs ih =>
-    rw [strictSorted_cons] at hs
+    rw [noDup_cons] at hs
     simp only [List.zipIdx_cons, List.filterMap_cons]
     by_cases hlc : l = c
     · subst hlc
@@ -245,8 +310,9 @@ theorem dictGet_zipIdx_filterMap {β : Type} (cats : List Int) (hs : strictSorte
         | some v =>
           simp [hfv] at hv
           subst hv
-          have := hs.1 _ hmem
-          simp; omega
+          simp only [ne_eq]
+          intro e
+          exact hs.1 (e ▸ hmem)
       have hidx : indexOf l (l :: cs) = 0 := by simp [indexOf]
       rw [hidx]
       cases hf : f n with
